@@ -284,6 +284,8 @@ type c08Run struct {
 	snap     map[uint64]map[string]string
 	corrupt  string
 	usedIDs  []uint64 // checkpoint ids used by the running instance
+	freeStart bool    // the next instance starts with a scheduler that parks nothing
+	freeMode  bool    // the running instance was started that way: only reads are compared from here on
 	held     *c08Held
 	// the handles the user holds (they survive reopen), the directory number of each handle's document, and the
 	// handles older than a checkpoint the database was reopened from (D50 situation) — mirrors Ckpt.stepSpec
@@ -315,6 +317,7 @@ func (r *c08Run) start(dir string, handles []recovery.CheckpointHandle) string {
 	comp.SmallestLevelSize = int64(r.cfg.smallest)
 	r.db = db
 	r.s = &c08Sched{dkvSched: &dkvSched{db: db, parked: map[string]*parkedTask{}, events: make(chan string, 64), ids: map[*sst.Table]int{}}, ck: map[uint64]*parkedTask{}}
+	r.s.free = r.freeStart
 	verifhook.Set(r.s.handler)
 	r.flushQ, r.compactQ = 0, 0
 	r.waits = map[uint64]c08Wait{}
@@ -626,6 +629,10 @@ func runC08Trace(c lib.Case) []string {
 			emit("no-db")
 			continue
 		}
+		if r.freeMode && f[0] != "get" && f[0] != "scan" {
+			emit("ended")
+			continue
+		}
 		if r.corrupt != "" {
 			// a file of a retained checkpoint was overwritten or deleted: the real instance is not driven any further
 			// (its background tasks would read garbage); the next property-level observation shows the damage
@@ -884,6 +891,48 @@ func runC08Trace(c lib.Case) []string {
 				rstr = strings.Join(rs, ",")
 			}
 			emit(fmt.Sprintf("opened n=%d rots=%s", len(rots), rstr))
+		case "reopenfree":
+			// restore with the background tasks running freely during the replay of DB.Start (flush and compaction
+			// commits interleave with the replay loop as the Go scheduler pleases); afterwards only reads
+			id, _ := strconv.ParseUint(f[1], 10, 64)
+			if !r.retainedDone(id) {
+				emit("refused")
+				continue
+			}
+			h := r.handles[id]
+			r.crash()
+			for x := range r.user { // as for `reopen`: later checkpoints are abandoned, earlier ones are in the D50 situation
+				if x > id {
+					delete(r.user, x)
+				} else if x < id {
+					r.lost[x] = true
+				}
+			}
+			for x := range r.lost {
+				if x > id {
+					delete(r.lost, x)
+				}
+			}
+			r.lineage = []uint64{id}
+			r.usedIDs = []uint64{id}
+			r.handles = map[uint64]recovery.CheckpointHandle{id: h}
+			r.freeStart = true
+			e := r.start(r.dir, []recovery.CheckpointHandle{h})
+			r.freeStart = false
+			if e != "" {
+				r.crash()
+				emit("failed " + e)
+				continue
+			}
+			done := make(chan struct{})
+			go func() { r.db.WaitOnTasks(); close(done) }()
+			select {
+			case <-done:
+				r.freeMode = true
+				emit("opened-free")
+			case <-time.After(10 * time.Second):
+				emit("timeout")
+			}
 		case "peek":
 			id, _ := strconv.ParseUint(f[1], 10, 64)
 			h, ok := r.user[id]
@@ -1396,6 +1445,12 @@ func genC08Ops(r *lib.Rng, n int, big bool) []string {
 			g.add("intact")
 		}
 	}
+	if d := g.doneIDs(); len(d) > 0 && r.Chance(1, 6) {
+		// end with a restore whose replay runs concurrently with the flush and compaction tasks it starts
+		g.add(fmt.Sprintf("reopenfree %d", lib.Pick(r, d)))
+		g.observe(true)
+		return g.ops
+	}
 	// final: every retained completed checkpoint still restores, then the current instance is observed
 	g.add("intact")
 	for _, id := range g.userIDs() {
@@ -1444,6 +1499,11 @@ func c08Fixed() []lib.Case {
 		{Header: hdr, Ops: []string{"put " + k + " 01", "ckpt 1", "cw 1", "cd 1", "put " + k2 + " 02", "ckpt 2", "cw 2", "cd 2", "hretaind 2",
 			"peek 2", "ckpt 3", "release", "peek 2", "put " + k3 + " 03", "ckpt 3", "cw 3", "cd 3", "hretaind 3", "peek 3", "reopen 3 same", "scan -",
 			"peek 3", "intact"}, Tags: []string{"crash-inside-save"}},
+		// restore with freely running background tasks: several rotations during the replay, flushes and compactions commit
+		// while DB.Start is still replaying; every read afterwards must be the map at the Checkpoint call
+		{Header: "M C08 mem=60 target=64 l0=1 amp=1 smallest=1", Ops: []string{"put " + k + " 01", "put " + k2 + " " + c08Big(0x31, 50), "put " + k3 + " " + c08Big(0x32, 50),
+			"del " + k2, "put " + k + " 02", "put " + z + " " + c08Big(0x33, 50), "ckpt 1", "bg f", "bg f", "put " + k3 + " 09", "cw 1", "cd 1", "reopenfree 1", "scan -",
+			"get " + k, "get " + k2, "get " + k3, "get " + z, "put " + k + " 00"}, Tags: []string{"free-replay"}},
 		// retention keeps the listed checkpoints and every newer one; the dropped one is gone, the kept ones restore
 		{Header: hdr, Ops: []string{"put " + k + " 01", "ckpt 1", "cw 1", "cd 1", "put " + k2 + " 02", "ckpt 2", "cw 2", "cd 2", "put " + k3 + " 03",
 			"ckpt 3", "cw 3", "cd 3", "put " + k + " 04", "ckpt 4", "retain 2", "peek 1", "peek 2", "peek 3", "cw 4", "cd 4", "peek 4", "retain 4,2",
